@@ -50,7 +50,7 @@ NEST_ASSUME = [
 
 PROPS = {
     "C06": {
-        "streams": ["codec", "batch"], "driver": {"codec": "codec", "batch": "batch"}, "scale": {"batch": 0.34}, "level": "proof",
+        "streams": ["codec", "batch", "nested"], "driver": {"codec": "codec", "batch": "batch", "nested": "world"}, "scale": {"batch": 0.34}, "level": "proof",
         "trusted_base": LEAN_TB, "assumptions": CODEC_ASSUME,
         "rule": "arrays built at T in {256,512,1024} with every element size class incl. externalised values; every slab stored is encoded by EncodeSlab and by the model (bytes compared), every committed register decoded by both; distinct = distinct slabs encoded",
         "explanation": "Theorems: elem_size_eq_enc_len (every CBOR head width and the gap sizes), enc_len_data/meta/storable/enc_len (written bytes = reported size + extra data - 16 for an omitted sibling link), decoded_size_eq, no_uint16_truncation. Tie: the model's bytes must EQUAL EncodeSlab's bytes for every slab. Oracle: len(EncodeSlab) vs ByteSize on all slab kinds incl. maps and inlined children.",
